@@ -39,10 +39,12 @@ Top2 == <<131071, 65534>>         \* 2 * (2^32 - 1)
 \* is there no grid price of the price range at or above mid + distance?  With G = (2^32 - 1) - ((2^32 - 1) % tick) the last
 \* grid price: 4 G < 2 * m2 + a4, for a4 below 2^27.  (Rounding up then leaves the range, the result is clamped to 2^32 - 1
 \* and brought back to the grid: the sell is quoted at G, which is below the mid-price when the mid-price is above G.)
-BeyondTop(e) ==
+BeyondTopFinite(e) ==
   /\ BigSmall(e.a4)
   /\ BigNear(Top2, e.m2)
   /\ 2 * BigDiff(Top2, e.m2) < BigVal(e.a4) + 4 * BigMod(MaxP, c.tick)
+\* (the distribution can also return infinity - a heavy tail with finite parameters: every price is then beyond the range)
+BeyondTop(e) == e.inf \/ BeyondTopFinite(e)
 
 QuoteClauses(e) ==
   LET o == e.order IN
@@ -54,12 +56,13 @@ QuoteClauses(e) ==
     <<"record_as_given", o.status = "New" /\ o.vol = e.vol /\ o.start = e.vol /\ o.tr = e.tr /\ o.side = (IF e.buy THEN "B" ELSE "A")>>,
     <<"on_grid", BigWellFormed(o.price) /\ BigMod(o.price, c.tick) = 0>>,
     <<"buy_at_or_below_mid", e.buy => BigLe(BigDbl(o.price), e.m2)>>,
+    <<"buy_at_infinite_distance_is_clamped_to_zero", (e.buy /\ e.inf) => o.price = <<0, 0>>>>,
     <<"sell_at_or_above_mid_or_last_grid_price", (~e.buy) =>
          IF BeyondTop(e) THEN o.topgap < c.tick ELSE BigGe(BigDbl(o.price), e.m2)>>
   >>
 
 \* the documented rounding, recomputed exactly where the numbers are small
-ExactKnown(e) == BigSmall(e.m2) /\ BigSmall(e.a4) /\ BigVal(e.m2) < 134217728 /\ BigVal(e.a4) < 134217728
+ExactKnown(e) == ~e.inf /\ BigSmall(e.m2) /\ BigSmall(e.a4) /\ BigVal(e.m2) < 134217728 /\ BigVal(e.a4) < 134217728
 ExactPrice(e) ==
   LET m == BigVal(e.m2)  a == BigVal(e.a4)  t == c.tick IN
   IF e.buy THEN (IF 2 * m - a < 0 THEN 0 ELSE t * ((2 * m - a) \div (4 * t)))
